@@ -265,3 +265,140 @@ theorem tableSrc_sized (xs : List Pair) (n : Nat) :
   simp only [h1, if_false, Int.toNat_natCast, fillSrc_canon]
 
 end DV.C03
+
+namespace DV.C03
+open Src
+
+/-! ### round four: merge() as a program, local index classes -/
+
+def canonLoop1 : MLoop :=
+  { needOld := true, needAdded := true,
+    body := .ite canonDrops (.acts [.eraseOld])
+      (.ite canonBefore (.acts [.pushOld, .eraseOld]) (.acts [.pushAdded, .eraseAdded])) }
+def canonLoop2 : MLoop :=
+  { needOld := true, needAdded := false, body := .ite canonKeeps (.acts [.pushOld, .eraseOld]) (.acts [.eraseOld]) }
+def canonLoop3 : MLoop := { needOld := false, needAdded := true, body := .acts [.pushAdded, .eraseAdded] }
+
+theorem envMerge_before (o a : Pair) (os as t : List Pair) :
+    canonBefore.eval (envMerge canonAttrLt ⟨o :: os, a :: as, t⟩) = before o a := by
+  have := beforeSrc_canon o a
+  simp only [beforeSrc] at this
+  rw [← this]
+  simp only [canonBefore, BE.eval, IE.eval, envMerge, List.head?, Option.getD]
+
+theorem loop1_canon : ∀ (fuel : Nat) (old added t : List Pair), old.length + added.length ≤ fuel →
+    ∃ old' added' x, canonLoop1.run canonAttrLt fuel ⟨old, added, t⟩ = some ⟨old', added', t ++ x⟩ ∧
+      (old' = [] ∨ added' = []) ∧ mergeLoop old added = x ++ mergeLoop old' added'
+  | fuel, [], added, t, _ => by
+    refine ⟨[], added, [], ?_, Or.inl rfl, by simp⟩
+    cases fuel <;> simp [MLoop.run, MLoop.guard, canonLoop1]
+  | fuel, o :: os, [], t, _ => by
+    refine ⟨o :: os, [], [], ?_, Or.inr rfl, by simp⟩
+    cases fuel <;> simp [MLoop.run, MLoop.guard, canonLoop1]
+  | 0, o :: os, a :: as, t, h => by simp at h
+  | fuel + 1, o :: os, a :: as, t, h => by
+    have hg : canonLoop1.guard ⟨o :: os, a :: as, t⟩ = true := by simp [MLoop.guard, canonLoop1]
+    rw [mergeLoop_cons_cons]
+    simp only [MLoop.run, hg, if_true]
+    by_cases hv : o.l.valid = true
+    · have hd : canonDrops.eval (envMerge canonAttrLt ⟨o :: os, a :: as, t⟩) = false := by
+        simp [canonDrops, BE.eval, envMerge, hv]
+      by_cases hb : before o a = true
+      · obtain ⟨old', added', x, h1, h2, h3⟩ := loop1_canon fuel os (a :: as) (t ++ [o]) (by simp at h ⊢; omega)
+        refine ⟨old', added', o :: x, ?_, h2, by simp [hv, hb, h3]⟩
+        simp only [canonLoop1, MTree.run, hd, envMerge_before, hb, Bool.false_eq_true, if_false, runActs,
+          MAct.run, List.head?, Option.map_some, Option.bind_some] at h1 ⊢
+        simpa using h1
+      · obtain ⟨old', added', x, h1, h2, h3⟩ := loop1_canon fuel (o :: os) as (t ++ [a]) (by simp at h ⊢; omega)
+        refine ⟨old', added', a :: x, ?_, h2, by simp [hv, hb, h3]⟩
+        simp only [canonLoop1, MTree.run, hd, envMerge_before, hb, Bool.false_eq_true, if_false, runActs,
+          MAct.run, List.head?, Option.map_some, Option.bind_some] at h1 ⊢
+        simpa using h1
+    · have hd : canonDrops.eval (envMerge canonAttrLt ⟨o :: os, a :: as, t⟩) = true := by
+        simp [canonDrops, BE.eval, envMerge, hv]
+      obtain ⟨old', added', x, h1, h2, h3⟩ := loop1_canon fuel os (a :: as) t (by simp at h ⊢; omega)
+      refine ⟨old', added', x, ?_, h2, by simp [hv, h3]⟩
+      simp only [canonLoop1, MTree.run, hd, if_true, runActs, MAct.run, Option.bind_some] at h1 ⊢
+      exact h1
+
+theorem loop2_canon : ∀ (fuel : Nat) (old added t : List Pair), old.length ≤ fuel →
+    canonLoop2.run canonAttrLt fuel ⟨old, added, t⟩ = some ⟨[], added, t ++ old.filter (·.l.valid)⟩
+  | fuel, [], added, t, _ => by cases fuel <;> simp [MLoop.run, MLoop.guard, canonLoop2]
+  | 0, o :: os, added, t, h => by simp at h
+  | fuel + 1, o :: os, added, t, h => by
+    have hg : canonLoop2.guard ⟨o :: os, added, t⟩ = true := by simp [MLoop.guard, canonLoop2]
+    simp only [MLoop.run, hg, if_true]
+    by_cases hv : o.l.valid = true
+    · have hk : canonKeeps.eval (envMerge canonAttrLt ⟨o :: os, added, t⟩) = true := by
+        simp [canonKeeps, BE.eval, envMerge, hv]
+      have ih := loop2_canon fuel os added (t ++ [o]) (by simp at h; omega)
+      simp only [canonLoop2, MTree.run, hk, if_true, runActs, MAct.run, List.head?, Option.map_some,
+        Option.bind_some] at ih ⊢
+      rw [ih]; simp [hv]
+    · have hk : canonKeeps.eval (envMerge canonAttrLt ⟨o :: os, added, t⟩) = false := by
+        simp [canonKeeps, BE.eval, envMerge, hv]
+      have ih := loop2_canon fuel os added t (by simp at h; omega)
+      simp only [canonLoop2, MTree.run, hk, Bool.false_eq_true, if_false, runActs, MAct.run, Option.bind_some] at ih ⊢
+      rw [ih]; simp [hv]
+
+theorem loop3_canon : ∀ (fuel : Nat) (added t : List Pair), added.length ≤ fuel →
+    canonLoop3.run canonAttrLt fuel ⟨[], added, t⟩ = some ⟨[], [], t ++ added⟩
+  | fuel, [], t, _ => by cases fuel <;> simp [MLoop.run, MLoop.guard, canonLoop3]
+  | 0, a :: as, t, h => by simp at h
+  | fuel + 1, a :: as, t, h => by
+    have hg : canonLoop3.guard ⟨[], a :: as, t⟩ = true := by simp [MLoop.guard, canonLoop3]
+    have ih := loop3_canon fuel as (t ++ [a]) (by simp at h; omega)
+    simp only [MLoop.run, hg, if_true]
+    simp only [canonLoop3, MTree.run, runActs, MAct.run, List.head?, Option.map_some, Option.bind_some] at ih ⊢
+    rw [ih]; simp
+
+theorem mergeProgSrc_canon (old added : List Pair) :
+    mergeProgSrc canonAttrLt [canonLoop1, canonLoop2, canonLoop3] old added = some (mergeLoop old added) := by
+  obtain ⟨old', added', x, h1, h2, h3⟩ := loop1_canon (old.length + added.length) old added [] (Nat.le_refl _)
+  simp only [mergeProgSrc, runLoops, h1, Option.bind_some]
+  rcases h2 with rfl | rfl
+  · rw [loop2_canon _ [] added' _ (by simp)]
+    simp only [Option.bind_some]
+    rw [loop3_canon _ added' _ (by simp)]
+    simp [h3, mergeLoop_nil]
+  · rw [loop2_canon _ old' [] _ (by simp)]
+    simp only [Option.bind_some]
+    rw [loop3_canon _ [] _ (by simp)]
+    simp [h3, mergeLoop_nil_right]
+
+theorem mergeSrc_canon (s : ISet) :
+    mergeSrc [.assignNewToLocal, .clearNew] canonAttrLt [canonLoop1, canonLoop2, canonLoop3] s = some (merge s) := by
+  unfold mergeSrc merge
+  split
+  · rfl
+  · split
+    · rw [mergeProgSrc_canon]; rfl
+    · rfl
+
+theorem build_canon3 (l a : Nat) (p : Bool) :
+    LIdxCtor.build { loc := .param 0, attr := .param 1, pub := .param 2, state := .valid } [l, a, p.toNat] =
+      { loc := l, attr := a, pub := p, valid := true } := by
+  cases p <;> simp [LIdxCtor.build, Init.eval]
+
+theorem build_canon2 (a : Nat) (p : Bool) :
+    LIdxCtor.build { loc := .zero, attr := .param 0, pub := .param 1, state := .valid } [a, p.toNat] =
+      { loc := 0, attr := a, pub := p, valid := true } := by
+  cases p <;> simp [LIdxCtor.build, Init.eval]
+
+theorem build_canon0 :
+    LIdxCtor.build { loc := .zero, attr := .zero, pub := .falseV, state := .valid } [] = defaultLocal := by
+  simp [LIdxCtor.build, Init.eval, defaultLocal]
+
+theorem build_canon1 (l : Nat) :
+    LIdxCtor.build { loc := .param 0, attr := .zero, pub := .falseV, state := .valid } [l] =
+      { loc := l, attr := 0, pub := false, valid := true } := by
+  simp [LIdxCtor.build, Init.eval]
+
+theorem write_assign (x : LIdx) (k : Nat) : writeSrc [(.loc, .param 0)] [k] x = { x with loc := k } := by
+  simp [writeSrc, Init.eval]
+
+theorem write_setState (x : LIdx) : writeSrc [(.state, .param 0)] [1] x = { x with valid := false } ∧
+    writeSrc [(.state, .param 0)] [0] x = { x with valid := true } := by
+  simp [writeSrc, Init.eval]
+
+end DV.C03
